@@ -34,6 +34,8 @@ def main():
         for src, dst in re.findall(r"`?([\w./-]+\.go)`?[^\n]*?\bto\s+`?((?:x|types)/[\w./-]+/)`?", readme):
             copies.append((src, dst + os.path.basename(src)))
     m = re.search(r"cd\s+(?:<repo>/)?(\S+)\s*&&\s*(go test[^\n]*)", readme)
+    # a destination that is a directory gets the file name appended
+    copies = [(src, dst if dst.rstrip(".,;").endswith(".go") else dst.rstrip(".,;").rstrip("/") + "/" + os.path.basename(src)) for src, dst in copies]
     if not copies or not m:
         print(json.dumps({"name": name, "error": "cannot parse README", "readme": readme[:400]}))
         return 2
